@@ -889,6 +889,14 @@ def fn_atan2(y: Rat, x: Rat) -> Rat:
 def fn_exp(x: Rat) -> Rat:
     if x.is_zero():
         return Rat.const(1)
+    # exp(c * log(k)) == k**c for a rational constant k
+    if x.den is ONE_P and len(x.num) == 1:
+        (m, c), = x.num.items()
+        if len(m) == 1 and m[0][1] == 1:
+            a = A(m[0][0])
+            if a.kind == 'fn' and a.name == 'log' and isinstance(a.args[0], Rat) and a.args[0].as_const() is not None \
+                    and a.args[0].as_const() > 0:
+                return Rat.const(a.args[0].as_const()) ** c
     return Rat.fn('exp', x, positive=True)
 
 
